@@ -458,8 +458,8 @@ pub async fn dump_state<C: Config>(engine: &Arc<Engine<C>>, nodes: &[Node]) -> S
     };
     let optn = |o: Option<u64>| match o { Some(x) => format!("(Some {x}%N)"), None => "None".to_string() };
     let list = |v: &Vec<qbice::query::QueryID>| format!("[{}]", v.iter().map(|i| name(i)).collect::<Vec<_>>().join("; "));
-    let items: Vec<String> = dumps.iter().map(|(n, d)| format!("({}, mkDump {} {} {} {} {} {} {} {})", n.coq(), optn(d.last_verified), optn(d.pending_backward_projection),
-        list(&d.transitive_firewall_callees), list(&d.forward), list(&d.observed), list(&d.dirty_forward), list(&d.observed_value_current), list(&d.observed_tfc_current))).collect();
+    let items: Vec<String> = dumps.iter().map(|(n, d)| format!("({}, mkDump {} {} {} {} {} {} {} {} {})", n.coq(), optn(d.last_verified), optn(d.pending_backward_projection),
+        list(&d.transitive_firewall_callees), list(&d.forward), list(&d.observed), list(&d.dirty_forward), list(&d.observed_value_current), list(&d.observed_tfc_current), list(&d.backward))).collect();
     format!("[{}]", items.join("; "))
 }
 pub fn scenario_nodes(s: &Scenario) -> Vec<Node> {
